@@ -248,3 +248,24 @@ func init() {
 		return nil
 	})
 }
+
+func init() {
+	// valyala/fastjson converts between string and []byte through reflect.StringHeader/SliceHeader
+	reg("github.com/valyala/fastjson.s2b", func(m *Machine, fr *frame, a []Value) Value {
+		s := a[0].(Str)
+		if s.A != nil {
+			return s.A
+		}
+		if s.Len() == 0 {
+			return []Value(nil)
+		}
+		return sliceOfStr(s)
+	})
+	reg("github.com/valyala/fastjson.b2s", func(m *Machine, fr *frame, a []Value) Value {
+		b := a[0].([]Value)
+		if len(b) == 0 {
+			return Str{}
+		}
+		return Str{A: b[:len(b):len(b)]}
+	})
+}
